@@ -195,6 +195,14 @@ def h_special(ctx, case):
                                                                     [objs["srv"].server_type, SourceObject("bare-metal")]]),
         "fixed_count_on_autoscaling": lambda: setattr(objs["srv2"], "fixed_nb_of_instances", SourceValue(50 * u.dimensionless)),
         "type_autoscaling_with_fixed_count": lambda: setattr(objs["srv"], "server_type", SourceObject("autoscaling")),
+        # the same two refusals inside an update whose first change belongs to another class (the allowed values of every
+        # changed object are checked, whatever comes first)
+        "fixed_count_on_autoscaling_after_job_change": lambda: ModelingUpdate(
+            [[objs["job"].data_transferred, SourceValue(7 * u.MB)], [objs["srv2"].fixed_nb_of_instances, SourceValue(50 * u.dimensionless)]]),
+        "type_autoscaling_with_fixed_count_after_network_change": lambda: ModelingUpdate(
+            [[objs["net"].bandwidth_energy_intensity, SourceValue(0.07 * u.kWh / u.GB)], [objs["srv"].server_type, SourceObject("autoscaling")]]),
+        "fixed_count_on_autoscaling_before_step_change": lambda: ModelingUpdate(
+            [[objs["srv2"].fixed_nb_of_instances, SourceValue(50 * u.dimensionless)], [objs["step"].user_time_spent, SourceValue(3 * u.min)]]),
         "none_for_quantity": lambda: setattr(objs["job"], "data_transferred", None),
         "timezone_wrong_type": lambda: setattr(objs["fr"], "timezone", "Europe/Paris"),
         "starts_scalar_for_hourly": lambda: setattr(objs["up"], "hourly_usage_journey_starts", SourceValue(3 * u.dimensionless)),
@@ -265,6 +273,8 @@ def plan(tier, seed):
                     p.append(("assign", dict(skeleton="T5", obj=o, param=q, kind=k, grouped=g)))
     for case in ("list_wrong_class_assign", "list_wrong_class_append", "list_wrong_class_devices", "link_wrong_class",
                  "server_type_outside_list", "server_type_outside_list_grouped", "fixed_count_on_autoscaling",
-                 "type_autoscaling_with_fixed_count", "none_for_quantity", "timezone_wrong_type", "starts_scalar_for_hourly"):
+                 "type_autoscaling_with_fixed_count", "none_for_quantity", "timezone_wrong_type", "starts_scalar_for_hourly",
+                 "fixed_count_on_autoscaling_after_job_change", "type_autoscaling_with_fixed_count_after_network_change",
+                 "fixed_count_on_autoscaling_before_step_change"):
         p.append(("special", dict(case=case), dict(allow_no_obligation=False)))
     return p
